@@ -35,7 +35,7 @@ RULE = ("(determinism) a case is a batch of pipeline jobs run in 5+ fresh interp
         "(pipeline, input, parameters) when it produced >= 1 output table under every seed; (lazy/order) distinct by "
         "(font, lazy, permutation) when every table was decompiled and recompiled; (purity) a history is non-trivial "
         "when it contains >= 1 observation placed before the final save of a font with >= 1 decompiled table, distinct "
-        "by (font, mode, operation sequence); (failed save) distinct by (font, failing table or code line) when the "
+        "by (font, mode, operation sequence) — the same on TTCollection objects with member edits and collection/member saves; (failed save) distinct by (font, failing table or code line) when the "
         "injected failure made the save raise")
 ASSUMPTIONS = [
     "SOURCE_DATE_EPOCH is pinned by the framework; allowed environment reads are SOURCE_DATE_EPOCH and FONTTOOLS_* switches",
@@ -51,7 +51,7 @@ ASSUMPTIONS = [
     "datetime.now() cannot be wrapped (C type); clock dependence is judged behaviourally by shifting time.time/gmtime/"
     "localtime by 400 days in one interpreter",
 ]
-REQUIRED_MONITORS = ["purity:TTFont.save", "purity:TTFont.saveXML", "purity:TTFont.getTableData", "c16_pipe"]
+REQUIRED_MONITORS = ["purity:TTFont.save", "purity:TTFont.saveXML", "purity:TTFont.getTableData", "purity:TTCollection.save", "c16_pipe"]
 CASE_TIMEOUT = 600
 MANIFEST = {
     "text": "Exploration. Determinism: eight pipelines (recompile, TTX import, feature compilation of the corpus .fea files, subsetting, instancing, variable-font build from the corpus designspaces, merging, cu2qu) run in fresh interpreters under PYTHONHASHSEED 0,1,2,3 and random seeds, one interpreter with perturbed environment/cwd/locale and a clock shifted by 400 days; sha256 per output table compared by the parent, witness = first differing table with its XML diff; in-process lazy x table-access-order sweep. Purity: random operation histories with and without interleaved observations (save, saveXML, getTableData, compile, draw) must end in byte-identical saves; a monitor on save/saveXML/getTableData shadow-saves deep copies taken before and after each call; a save that failed (one table's compile raising; a field set out of range and then corrected) must leave no trace in the next save; the font a pipeline returns is saved twice. Failpoints on random lines of save() are recorded as leads only.",
@@ -89,13 +89,46 @@ def diff_tables(a, b):
     return tags or ["<layout>"]
 
 
+def ttc_members(data):
+    """[{tag: bytes}] per member of a TTC (head checkSumAdjustment masked); None when unreadable."""
+    try:
+        ver, offs = S.ttc_offsets(data)
+        out = []
+        for o in offs:
+            v, tabs = S.sfnt_tables(data, o)
+            out.append({t: (b if t != "head" or len(b) < 12 else b[:8] + b"\0\0\0\0" + b[12:]) for t, b in tabs.items()})
+        return out
+    except Exception:
+        return None
+
+
+def diff_any(a, b):
+    """Differences between two saved fonts or collections: ['tag'] or ['member/tag']."""
+    if a == b:
+        return []
+    if a[:4] == b"ttcf" and b[:4] == b"ttcf":
+        ma, mb = ttc_members(a), ttc_members(b)
+        if ma is None or mb is None or len(ma) != len(mb):
+            return ["<container>"]
+        out = []
+        for i, (x, y) in enumerate(zip(ma, mb)):
+            out += ["%d/%s" % (i, t) for t in sorted(set(x) | set(y)) if x.get(t) != y.get(t)]
+        return out or ["<layout>"]
+    return diff_tables(a, b)
+
+
 def xml_diff(a, b, tag, limit=40):
     from fontTools.ttLib import TTFont
     from fontTools.misc.xmlWriter import XMLWriter
 
+    kw = {}
+    if "/" in tag and tag.split("/", 1)[0].isdigit():
+        member, tag = tag.split("/", 1)
+        kw["fontNumber"] = int(member)
+
     def dump(data):
         try:
-            f = TTFont(io.BytesIO(data))
+            f = TTFont(io.BytesIO(data), **kw)
             s = io.StringIO()
             w = XMLWriter(s)
             f._tableToXML(w, tag)
@@ -104,7 +137,7 @@ def xml_diff(a, b, tag, limit=40):
         except Exception as e:
             return ["<dump failed: %s>" % type(e).__name__]
 
-    if tag.startswith("<"):
+    if tag.startswith("<") or a is None or b is None:
         return []
     with hooks.quiet():
         return list(difflib.unified_diff(dump(a), dump(b), "first", "second", lineterm=""))[:limit]
@@ -173,6 +206,62 @@ def setup():
     for meth in ("save", "saveXML", "getTableData"):
         pre, post = mk("TTFont." + meth)
         hooks.attach(ttFont.TTFont, meth, pre=pre, post=post, name="purity:TTFont." + meth)
+    from fontTools.ttLib import ttCollection
+
+    def cshadow(coll):
+        b = io.BytesIO()
+        coll.save(b)
+        return b.getvalue()
+
+    def cpre(a, kw):
+        if not _cur["purity_on"]:
+            return None
+        _cur["depth"] += 1
+        if _cur["depth"] > 1:
+            return None
+        coll = a[0]
+        try:
+            snap = copy.deepcopy(coll)
+        except Exception:
+            _cur["purity_skips"] += 1
+            return None
+        return (snap, [set(f.tables) for f in coll.fonts])
+
+    def cpost(st, a, kw, res, exc):
+        if not _cur["purity_on"]:
+            return
+        _cur["depth"] -= 1
+        if st is None or exc is not None:
+            return
+        snap, loaded = st
+        coll = a[0]
+        if [set(f.tables) for f in coll.fonts] != loaded:
+            _cur["purity_skips"] += 1
+            return
+        try:
+            after = copy.deepcopy(coll)
+            b0 = cshadow(snap)
+        except Exception:
+            _cur["purity_skips"] += 1
+            return
+        try:
+            b1 = cshadow(after)
+        except Exception as e:
+            hooks.report({"kind": "purity", "via": "monitor", "op": "TTCollection.save", "what": "later-save-raises", "type": type(e).__name__},
+                         "after TTCollection.save a copy of the collection no longer saves (%s)" % type(e).__name__, None)
+            return
+        _cur["purity_evals"] += 1
+        hooks.count("purity:TTCollection.save:judged")
+        for tag in diff_any(b0, b1):
+            t = tag.split("/", 1)[-1]
+            if ("TTCollection.save", t) in _cur["mon_seen"]:
+                continue
+            _cur["mon_seen"].add(("TTCollection.save", t))
+            hooks.report({"kind": "purity", "via": "monitor", "op": "TTCollection.save", "table": t, "source": _cur.get("source")},
+                         "TTCollection.save changed the collection: shadow saves of copies taken before and after the call differ in %r" % tag,
+                         {"collection": _cur.get("font"), "xml_diff": xml_diff(b0, b1, tag)})
+
+    hooks.attach(ttCollection.TTCollection, "save", pre=cpre, post=cpost, name="purity:TTCollection.save")
     hooks.counters.setdefault("c16_pipe", 0)
     # evidence: how many monitored compiles went through in-place offset-overflow resolution
     from fontTools.ttLib.tables import otTables
@@ -325,6 +414,21 @@ def cases(tier, seed):
         for m in modes:
             add("history", font=r["path"], mode=m, n=(6 if T else 3))
     add("history", font="<built>", mode="built", n=8 if T else 4)
+
+    # ---- histories on collections (TTCollection.save shares tables between members)
+    colls = ["ttc:ttx/data/TestTTC.ttc", "ttc:ttx/data/TestTTCv2.ttc",
+             "pair:ttLib/data/TestTTF-Regular.ttx|ttLib/data/TestTTF-Regular.ttx",
+             "pair:ttx/data/TestTTF.ttf|ttLib/data/Test-Regular.ttf",
+             "pair:ttx/data/TestOTF.otf|ttx/data/TestOTF.otf",
+             "pair:<built>|<built>",
+             "pair:ttx/data/TestTTF.ttf|ttx/data/TestOTF.otf|ttLib/data/TestTTF-Regular.ttx"]
+    if T:
+        small = [r["path"] for r in pool if r["complete"] and r["head"] and r["size"] <= 20000]
+        for i in range(0, min(len(small) - 1, 60), 2):
+            colls.append("pair:%s|%s" % (small[i], small[i + 1]))
+    for src in colls:
+        if all(p == "<built>" or _exists(p) for p in src.split(":", 1)[1].split("|")):
+            add("collection", source=src, n=(8 if T else 5))
 
     # ---- failed saves leave no trace
     fs = ["ttx/data/TestTTF.ttf", "ttx/data/TestOTF.otf", "cffLib/data/TestSparseCFF2VF.ttx", "ttLib/data/TestTTF-Regular.ttx",
@@ -703,7 +807,8 @@ def _fresh(case, mode, k=0):
 
 
 EDITS = ["head.lowestRecPPEM", "OS/2.usWeightClass", "hhea.lineGap", "post.underlineThickness", "name.add", "hmtx.advance",
-         "cmap.add", "glyf.move", "CFF.underline", "maxp.noop", "flavor", "GSUB.flag", "GPOS.flag", "fvar.flags", "gasp.add"]
+         "cmap.add", "glyf.move", "CFF.underline", "maxp.noop", "flavor", "GSUB.flag", "GPOS.flag", "fvar.flags", "gasp.add",
+         "hmtx.all", "glyf.far"]
 
 
 def _edit(font, name, k):
@@ -713,7 +818,7 @@ def _edit(font, name, k):
             font.flavor = [None, "woff", None][k % 3] if font.flavor is None else None
             return True
         tag = {"OS/2": "OS/2", "CFF": "CFF "}.get(name.split(".")[0], name.split(".")[0])
-        if tag not in font:
+        if tag not in font or (name == "glyf.far" and "gvar" in font):
             return False
         t = font[tag]
         if name == "head.lowestRecPPEM":
@@ -730,6 +835,18 @@ def _edit(font, name, k):
             g = font.getGlyphOrder()[min(k, len(font.getGlyphOrder()) - 1)]
             adv, lsb = t.metrics[g]
             t.metrics[g] = ((adv + 10) % 4000, lsb)
+        elif name == "hmtx.all":
+            # every advance equal: the number of long metrics (a field of hhea) changes
+            for g in font.getGlyphOrder():
+                t.metrics[g] = (777 + k, t.metrics[g][1])
+        elif name == "glyf.far":
+            # bounding boxes of the glyph, of head and the maxima of hhea change
+            for gname in font.getGlyphOrder():
+                g = t[gname]
+                if g.numberOfContours > 0:
+                    g.coordinates[0] = (g.coordinates[0][0] + 3000 + k, g.coordinates[0][1])
+                    return True
+            return False
         elif name == "cmap.add":
             order = font.getGlyphOrder()
             done = False
@@ -957,6 +1074,166 @@ def _minimise(case, mode, k, ops, bad):
         if bad(x, ex):
             return [ops[i]]
     return [ops[i] for i in obs_idx]
+
+
+# ------------------------------------------------------------------ histories on collections
+def _fresh_coll(case, k):
+    from fontTools.ttLib import TTCollection
+
+    kind, spec = case["source"].split(":", 1)
+    if kind == "ttc":
+        with open(corpus.abspath(spec), "rb") as f:
+            data = f.read()
+        c = TTCollection(io.BytesIO(data), lazy=(None, False, True)[k % 3], recalcTimestamp=bool(k % 2))
+        for f in c.fonts:
+            f.ensureDecompiled()
+        return c
+    members = []
+    for i, rel in enumerate(spec.split("|")):
+        if rel == "<built>":
+            members.append(_built_font(k + i))
+        else:
+            mode = "ttx" if (rel.endswith(".ttx") and (k + i) % 2) else "decoded"
+            members.append(_fresh({"font": rel}, mode, k))
+    c = TTCollection()
+    c.fonts = members
+    return c
+
+
+def _gen_coll_history(rnd, coll):
+    n = rnd.randrange(3, 11)
+    nm = len(coll.fonts)
+    ops = []
+    menu = ["obs:csave"] * 4 + ["obs:msave"] * 2 + ["obs:csaveXML"] + ["obs:mget"] * 2 + ["obs:mcompile"] * 2 + ["edit"] * 5 + ["access"]
+    strong = ["hmtx.all", "glyf.far", "hmtx.advance", "glyf.move", "name.add", "OS/2.usWeightClass", "hhea.lineGap", "cmap.add"]
+    for _ in range(n):
+        m = rnd.randrange(nm)
+        tags = [t for t in coll.fonts[m].keys() if t != "GlyphOrder"]
+        c = rnd.choice(menu)
+        if c == "edit":
+            ops.append(["edit", m, rnd.choice(strong), rnd.randrange(4)])
+        elif c == "access":
+            ops.append(["access", m, rnd.choice(tags), None])
+        elif c == "obs:csave":
+            ops.append(["obs", "csave", rnd.choice([True, True, False]), None])
+        elif c == "obs:csaveXML":
+            ops.append(["obs", "csaveXML", None, None])
+        elif c == "obs:msave":
+            ops.append(["obs", "msave", m, None])
+        elif c == "obs:mget":
+            ops.append(["obs", "mget", m, rnd.choice(tags)])
+        else:
+            ops.append(["obs", "mcompile", m, rnd.choice(tags)])
+    # the shape that matters most: edit, save the collection, (save again)
+    if not any(o[0] == "edit" for o in ops):
+        ops.insert(0, ["edit", rnd.randrange(nm), rnd.choice(strong[:4]), rnd.randrange(4)])
+    last_edit = max(i for i, o in enumerate(ops) if o[0] == "edit")
+    if not any(o[0] == "obs" and o[1] == "csave" for o in ops[last_edit:]):
+        ops.append(["obs", "csave", True, None])
+    return ops
+
+
+def _play_coll(case, k, ops, with_obs):
+    coll = _fresh_coll(case, k)
+    applied = []
+    for i, op in enumerate(ops):
+        if op[0] == "access":
+            try:
+                coll.fonts[op[1]][op[2]]
+            except (CaseTimeout, MemoryError):
+                raise
+            except Exception as e:
+                return None, "access:%s" % type(e).__name__, applied
+        elif op[0] == "edit":
+            applied.append(_edit(coll.fonts[op[1]], op[2], op[3]))
+        elif with_obs:
+            try:
+                if op[1] == "csave":
+                    coll.save(io.BytesIO(), shareTables=op[2])
+                elif op[1] == "csaveXML":
+                    coll.saveXML(io.StringIO())
+                elif op[1] == "msave":
+                    coll.fonts[op[2]].save(io.BytesIO())
+                elif op[1] == "mget":
+                    coll.fonts[op[2]].getTableData(op[3])
+                elif op[1] == "mcompile":
+                    coll.fonts[op[2]][op[3]].compile(coll.fonts[op[2]])
+            except (CaseTimeout, MemoryError):
+                raise
+            except Exception as e:
+                return None, "obs:%s:%s" % (op[1], type(e).__name__), applied
+    try:
+        b = io.BytesIO()
+        coll.save(b)
+        return b.getvalue(), None, applied
+    except (CaseTimeout, MemoryError):
+        raise
+    except Exception as e:
+        return None, "final-save:%s" % type(e).__name__, applied
+
+
+def run_collection(case, ctx, rnd):
+    src = case["source"]
+    _cur.update(source="collection", font=src)
+    judged = 0
+    for k in range(case["n"]):
+        try:
+            probe = _fresh_coll(case, k)
+        except (CaseTimeout, MemoryError):
+            raise
+        except Exception as e:
+            ctx.skip("cannot assemble collection: %s" % type(e).__name__)
+            return
+        ops = _gen_coll_history(rnd, probe)
+        del probe
+        _cur.update(purity_on=True, depth=0)
+        try:
+            a, ea, appa = _play_coll(case, k, ops, True)
+        finally:
+            _cur.update(purity_on=False, depth=0)
+        if ea and ea.startswith("obs:"):
+            ctx.skip("observation raised (not this property): %s" % ea.split(":", 2)[1])
+            continue
+        b, eb, appb = _play_coll(case, k, ops, False)
+        if ea or eb:
+            if ea == eb:
+                ctx.skip("collection cannot be saved in either history: %s" % ea)
+                continue
+            ctx.judged()
+            _once(ctx, {"kind": "purity", "what": "later-save-raises", "source": "collection", "with_observations": ea, "without": eb},
+                  "final TTCollection.save of %s: %s with the observations, %s without" % (src, ea or "ok", eb or "ok"),
+                  {"collection": src, "history": ops})
+            continue
+        ctx.judged()
+        judged += 1
+        ctx.nontrivial("c:%s" % hashlib.sha256(json.dumps([src, k, ops], sort_keys=True, default=repr).encode()).hexdigest()[:16])
+        ctx.note("histories judged (collection)")
+        for o in ops:
+            if o[0] == "obs":
+                ctx.note("observations inserted: %s" % o[1])
+        if a == b:
+            continue
+        # smallest witness: a single observation that suffices
+        obs_idx = [i for i, o in enumerate(ops) if o[0] == "obs"]
+        minimal = [ops[i] for i in obs_idx]
+        for i in obs_idx:
+            trial = [o for j, o in enumerate(ops) if o[0] != "obs" or j == i]
+            x, ex, _ = _play_coll(case, k, trial, True)
+            if ex is None and x != b:
+                minimal = [ops[i]]
+                break
+        for tag in diff_any(b, a):
+            t = tag.split("/", 1)[-1]
+            _once(ctx, {"kind": "purity", "table": t, "source": "collection",
+                        "observation": minimal[0][1] if len(minimal) == 1 else "several"},
+                  "%s: the final TTCollection.save differs in %r when observations are interleaved (%s)"
+                  % (src, tag, ", ".join(o[1] for o in minimal)[:120]),
+                  {"collection": src, "history": ops, "minimal_observations": minimal, "differing": diff_any(b, a),
+                   "xml_diff": xml_diff(b, a, tag)})
+    ctx.note("purity monitor evaluations", _cur["purity_evals"])
+    ctx.note("purity monitor precondition not met", _cur["purity_skips"])
+    _cur["purity_evals"] = _cur["purity_skips"] = 0
+    ctx.sample = {"kind": "collection", "source": src, "histories": case["n"], "judged": judged}
 
 
 # ------------------------------------------------------------------ failed saves leave no trace
